@@ -103,13 +103,20 @@ def gjk_nesterov_accelerated(
     # normalize_support_direction is for soem reason only needed when both colliders are an mesh.
     normalize_support_direction = type(collider0) == MeshGraph and type(collider1) == MeshGraph
 
-    # Infaltion is only used with spheres and capsules
+    # Infaltion is only used with spheres and capsules and only when both
+    # colliders have a specialized support function (see support_function()).
+    # Otherwise the generic support functions are used and these already
+    # include the radius.
+    specialized_types = (Sphere, Capsule, Box, Ellipsoid, Cylinder)
+    specialized_support = (type(collider0) in specialized_types
+                           and type(collider1) in specialized_types)
     inflation = 0.0
-    if type(collider0) == Sphere or type(collider0) == Capsule:
-        inflation += collider0.radius
+    if specialized_support:
+        if type(collider0) == Sphere or type(collider0) == Capsule:
+            inflation += collider0.radius
 
-    if type(collider1) == Sphere or type(collider1) == Capsule:
-        inflation += collider1.radius
+        if type(collider1) == Sphere or type(collider1) == Capsule:
+            inflation += collider1.radius
 
     upper_bound += inflation
 
